@@ -24,7 +24,7 @@ func (chunkfault) Name() string     { return "chunkfault" }
 func (chunkfault) Level() string    { return "fault_enumeration" }
 func (chunkfault) Indices(tier string) int {
 	if tier == "thorough" {
-		return 60000
+		return 30000
 	}
 	return 1440
 }
